@@ -41,6 +41,13 @@ Definition c10_hyp (c : cfg) (s : st) (o : op) : bool :=
   excl_D o && excl_G o && excl_R o && excl_C s o && excl_F c o && excl_E s o.
 Definition c10_ops_ok (c : cfg) (ops : list op) : bool := hyp_from c (c10_hyp c) (init c) ops.
 
+(* the same with a selection of the exclusions, to state that each of them is needed *)
+Definition c10_hyp_sel (d g r cc f e : bool) (c : cfg) (s : st) (o : op) : bool :=
+  (negb d || excl_D o) && (negb g || excl_G o) && (negb r || excl_R o) && (negb cc || excl_C s o)
+  && (negb f || excl_F c o) && (negb e || excl_E s o).
+Definition c10_ops_sel (d g r cc f e : bool) (c : cfg) (ops : list op) : bool :=
+  hyp_from c (c10_hyp_sel d g r cc f e c) (init c) ops.
+
 (* ---------------------------------------------------------------- C10 *)
 Definition C10_connected_full : Prop := forall c ops,
   cfg_ok c = true -> c10_connected_ok (optrace c ops) = true.
